@@ -4,6 +4,7 @@ import (
 	"encoding/hex"
 	"errors"
 	"fmt"
+	"sort"
 	"strconv"
 	"strings"
 	"time"
@@ -719,7 +720,13 @@ func (conf *Config) get(key Setting) interface{} {
 }
 
 func (conf *Config) update(changes config.StringMap) error {
-	for key, value := range changes.Fields {
+	sortedKeys := make([]string, 0, len(changes.Fields))
+	for k := range changes.Fields {
+		sortedKeys = append(sortedKeys, k)
+	}
+	sort.Strings(sortedKeys)
+	for _, key := range sortedKeys {
+		value := changes.Fields[key]
 		trimmedKey := strings.TrimSpace(key)
 		trimmedValue := strings.TrimSpace(value)
 		if err := conf.set(trimmedKey, trimmedValue); err != nil {
